@@ -118,6 +118,9 @@ pub fn err_kind(e: &ExecutionErrorPayload) -> String {
         AssertionError(_) => "AssertionError".into(),
         InvalidUpvalue => "InvalidUpvalue".into(),
         NotClosure => "NotClosure".into(),
+        // a variant added to the crate later must not stop the harness from compiling
+        #[allow(unreachable_patterns)]
+        other => format!("{other:?}").split(|c: char| !c.is_alphanumeric()).next().unwrap_or("?").to_string(),
     }
 }
 
